@@ -24,12 +24,13 @@ for d in sorted(glob.glob(os.path.join(VERIF, "seeded", "*"))):
                 break
         det.append("%s: %s%s" % (c, "**caught**" if r.get("exit") == 1 else "missed" if r.get("exit") == 0 else "exit %s" % r.get("exit"),
                                  (" (`%s`)" % sig[:60]) if sig and r.get("exit") == 1 else ""))
-    hist = m.get("verif_history", "")
-    rows.append("| %s | %s | %s | %s | %s%s |" % (os.path.basename(d), (m.get("title") or "")[:90].replace("|", "/"),
-                                                ", ".join(os.path.basename(f) for f in m.get("files_touched", []))[:60],
-                                                "yes" if ok else "partly: %s" % json.dumps(conf)[:60], "; ".join(det), (" - " + hist) if hist else ""))
-table = ("| seed | change | files | confirmed (tests pass, demo fails with / passes without) | quick check on the patched tree |\n"
-         "|---|---|---|---|---|\n" + "\n".join(rows))
+    fp = m.get("verif_first_pass")
+    first = ("caught" if fp["caught"] else "missed") if fp else ("missed" if m.get("verif_history") else "caught")
+    rows.append("| %s | %s | %s | %s | %s | %s |" % (os.path.basename(d), (m.get("title") or "")[:90].replace("|", "/"),
+                                                  ", ".join(os.path.basename(f) for f in m.get("files_touched", []))[:60],
+                                                  "yes" if ok else "partly: %s" % json.dumps(conf)[:60], first, "; ".join(det)))
+table = ("| seed | change | files | confirmed (tests pass, demo fails with / passes without) | at first contact | quick check on the patched tree now |\n"
+         "|---|---|---|---|---|---|\n" + "\n".join(rows))
 p = os.path.join(VERIF, "DESIGN.md")
 s = open(p).read()
 if "@SEEDED_TABLE@" in s:
